@@ -153,6 +153,8 @@ class _SymArgs(object):
                 return H.numstr(self.ctx, n, 0)
             return H.zstr(self.ctx, n)
         if isinstance(x, int):
+            if x >= 100000:          # registration ids: any value of the 32-bit range (small ints are versions and counts of the shape)
+                return self.ctx.int(n, 0, 2 ** 32 - 1)
             return x
         if isinstance(x, bytes):
             return H.symbytes(self.ctx, n, len(x)) if len(x) <= 8 else x
@@ -256,9 +258,55 @@ def _has_list(node):
     return any(_has_list(c) for c in node.children)
 
 
+# ---- message stanzas with a payload as a peer client sends it --------------------------------------------------------------------------
+MEDIATYPE = dict(image="image", sticker="sticker", audio="audio", video="video", location="location", contact="contact", document="document", extended_text="url")
+
+
+def h_media_stanza(ctx, kind, which):
+    """<message type=media><proto mediatype=..>payload</proto></message> with symbolic attributes and a payload whose fields are solver
+    variables (built by the independent reference mapping, ref/e2e_ref.py): the media layer's dispatch picks the entity class; serialising
+    the entity again reproduces the attributes and every field of the payload"""
+    from checks import c10
+    from ref import e2e_ref
+    import yowsup.layers.protocol_media.layer as ML
+    C, c = c10.conv(ctx)
+    C.AttributesConverter._AttributesConverter__instance = c
+    v = c10.V(ctx)
+    model = c10.build(ctx, v, kind, which, 0)
+    if H.sym(ctx):
+        P = e2e_ref.message(C.Message(), model)
+    else:
+        import yowsup.layers.protocol_messages.proto.e2e_pb2 as e2e
+        P = e2e_ref.message(e2e.Message(), model)
+    N = SC.N()
+    attrs = {"from": J, "id": H.zstr(ctx, "id"), "t": H.numstr(ctx, "t", 0), "notify": H.zstr(ctx, "notify"), "offline": ctx.choice("offline", ["0", "1"]), "type": "media"}
+    node = N("message", attrs, [N("proto", {"mediatype": MEDIATYPE[kind]}, None, P.SerializeToString())])
+    layer = ML.YowMediaProtocolLayer()
+    up, down = [], []
+    layer.toUpper = up.append
+    layer.toLower = down.append
+    layer.recvMessageStanza(node)
+    obs = [("exactly one entity for the stanza (got %d)" % len(up), len(up) == 1)]
+    if len(up) != 1:
+        return obs
+    out = up[0].toProtocolTreeNode()
+    obs += SC.node_obs("rt", N(out.tag, out.attributes), N(node.tag, node.attributes))
+    pc = out.getChild("proto")
+    obs.append(("proto child with the same mediatype", pc is not None and hooks.dict_get(pc.attributes, "mediatype") == MEDIATYPE[kind]))
+    if pc is not None:
+        Q = C.Message() if H.sym(ctx) else e2e.Message()
+        Q.ParseFromString(pc.data)
+        obs += c10.proto_obs("payload", P, Q)
+    return obs
+
+
 def cases(tier):
     from checks.c09 import OPTIONAL_ATTRS
+    from checks import c10
     cs = []
+    for kind in sorted(MEDIATYPE):
+        for which in ["none", "all"] + [o for o in c10.OPTIONALS[kind] if o not in ("context_info", "stanza_id", "participant", "remote_jid", "mentioned_jid", "edit_version", "revoke_message")]:
+            cs.append(dict(name="media-stanza[%s,%s]" % (kind, which), fn=h_media_stanza, args=(kind, which), timeout_s=120, max_paths=3000, keep_samples=3))
     for name in sorted(list(SAMPLES) + list(NODES)):
         try:
             C, node, role, keep = _sample(name)
